@@ -1198,12 +1198,36 @@ pub fn c19(ctx: &mut Ctx) -> String {
         case_distance(ctx, &case);
     }
     // different games must panic
-    let t = kuhn(3);
-    let (g1, g2) = (build(&t).unwrap(), build(&t).unwrap());
-    let (s1, _) = g1.solve(SolveMethod::Full, 1, 0.0, 1, None).unwrap();
-    let (s2, _) = g2.solve(SolveMethod::Full, 1, 0.0, 1, None).unwrap();
-    if catch_unwind(AssertUnwindSafe(|| s1.distance(&s2, 1.0))).is_ok() {
-        ctx.fail_prop(&json!({"op": "distance-different-games"}), "distance between profiles of different games did not panic".to_string());
+    // (two games are different when they are two `Game` values, however alike: the same tree
+    // built twice, games in which one or both players have no decision at all, …)
+    let only = |one: bool, x: f64| T::Player(one, 0, vec![(0, T::Term(x)), (1, T::Term(-x)), (2, T::Term(0.25))]);
+    let shapes: Vec<(&str, T)> = vec![
+        ("kuhn", kuhn(3)),
+        ("only-player-two-decides", only(false, 1.0)),
+        ("only-player-one-decides", only(true, 1.0)),
+        ("nobody-decides", T::Chance(None, vec![(1.0, T::Term(1.0)), (3.0, T::Term(-1.0))])),
+        ("single-actions-only", T::Player(true, 0, vec![(0, T::Player(false, 0, vec![(0, T::Term(0.5))]))])),
+        ("one-terminal", T::Term(0.0)),
+    ];
+    for (na, ta) in shapes.iter() {
+        for (nb, tb) in shapes.iter() {
+            // profiles of two different games can only be compared when they have the same shape
+            // (otherwise the library may panic for that reason, which is fine too)
+            let (g1, g2) = match (build(ta), build(tb)) {
+                (Ok(a), Ok(b)) => (a, b),
+                _ => continue,
+            };
+            let (s1, _) = g1.solve(SolveMethod::Full, 1, 0.0, 1, None).unwrap();
+            let (s2, _) = g2.solve(SolveMethod::Full, 1, 0.0, 1, None).unwrap();
+            ctx.stat("different_games_pairs");
+            if let Ok(d) = catch_unwind(AssertUnwindSafe(|| s1.distance(&s2, 1.0))) {
+                ctx.fail_prop(&json!({"op": "distance-different-games", "first": na, "second": nb}), format!("distance between profiles of different games ({} / {}) did not panic but returned {:?}", na, nb, d));
+            }
+            // and the same game with itself does not
+            if na == nb && catch_unwind(AssertUnwindSafe(|| s1.distance(&s1, 1.0))).is_err() {
+                ctx.fail_prop(&json!({"op": "distance-same-game", "game": na}), format!("distance between profiles of one game ({}) panicked", na));
+            }
+        }
     }
     "games from the mixed stream (incl. games where a player has no decision) x pairs of profiles (equal, pure vs pure, arbitrary) x p in {0.25, 0.5, 1, 2, 7, 1e3, 0, -1, NaN, inf}; distinct = hash of (tree, both profiles, p)".to_string()
 }
